@@ -16,3 +16,10 @@ Theorem C18_removed_panics :
   valid_history base es = true /\
   enc 0 (TStruct (Lay 1 1 [0;1] false) (annotated base es 1)) (VRec [VInt 3; VUnit]) = Panic.
 Proof. exact write_old_removed_panics. Qed.
+
+(* the packed fast path is never taken at a version whose wire layout differs from the memory layout:
+   when a struct is declared packed at v, every live field is written at v and no removed one is *)
+From SF Require Import Packed PackedProofs.
+Theorem C18_min_safe : forall v l fs, packed v (TStruct l fs) = true -> wf_ty (TStruct l fs) = true ->
+  forall f, In f fs -> (is_removed f = true -> present v f = false) /\ (is_removed f = false -> present v f = true).
+Proof. exact packed_version_gate. Qed.
